@@ -8,4 +8,5 @@ Extraction "c09_model.ml" run_case o_kind o_code o_line o_cb o_ncb o_nrd o_maxsp
   l_addr l_size l_file l_line i_depth i_addr i_size i_cfile i_cline i_origin
   cr_addr cr_rules sc_init sc_size sc_add
   wi_addr wi_size wi_prolog wi_epilog wi_params wi_saved wi_locals wi_maxstack wi_thing
-  run_async run_trace first_rest tr_hash tr_events tr_grows tr_shifts tr_discards tr_recovered tr_zero_reads tr_full_reads.
+  run_async run_trace first_rest tr_hash tr_events tr_grows tr_shifts tr_discards tr_recovered tr_zero_reads tr_full_reads
+  run_bytes bo_kind bo_code bo_line bo_cb bo_cbok bo_left bo_spy.
